@@ -265,7 +265,7 @@ def codegen_theorem(chk, tier, d):
         jobs.append(dict(module="XCodeGenMC", cfg=cfg, workers=1, heap="3g", timeout=12000,
                          env={"WHICH": which, "SLICE": str(sl), "NSL": str(nsl), "STRIDE": str(stride), "DEV": dev, "OUT": o}))
     for sl in range(16):
-        job("XCodeGenMC.cfg", "", sl, 16, 70 if tier == "quick" else 1)
+        job("XCodeGenMC.cfg", "", sl, 16, 160 if tier == "quick" else 1)
     for sl in range(4):
         job("XCodeGenMC.cfg", "calls", sl, 4, 1)
     job("XCodeGenMC_nosave.cfg", "", 0, 400, 1, "nosave")
@@ -287,7 +287,7 @@ def codegen_theorem(chk, tier, d):
             chk.violation("spec-XCodeGen", "TLC: the code XCodeGen specifies does not compute what XLang defines (or leaves its regions), e.g. %s" % rep['example'][:600])
     chk.add("states", states); chk.add("transitions", states)
     chk.set("XCodeGenMC", dict(tot))
-    chk.vacuity(tot["defined"] < (20000 if tier == "quick" else 500000), "XCodeGenMC: too few cases inside XLang's domain: %s" % dict(tot))
+    chk.vacuity(tot["defined"] < (8000 if tier == "quick" else 500000), "XCodeGenMC: too few cases inside XLang's domain: %s" % dict(tot))
 
 
 def codegen(chk, exe, cases, d, tier, rng):
@@ -295,8 +295,10 @@ def codegen(chk, exe, cases, d, tier, rng):
     import xcodegen, xtext, corpus
     srcs = {}
     for path in corpus.repo_sources_x():
+        if os.path.basename(path) == "xhexb.x" and tier == "quick":
+            continue                                              # (thorough: 17,000 lines each way, a minute and a half of one TLC process)
         text = open(path, encoding="latin-1").read()
-        srcs['file:' + os.path.basename(path)] = text           # xhexb.x included: 17,000 lines each way
+        srcs['file:' + os.path.basename(path)] = text
         if os.path.basename(path) != "xhexb.x":
             for j, v in enumerate(xtext.variations(text, rng, 6 if tier == "quick" else 60)):
                 srcs['var:%s:%d' % (os.path.basename(path), j)] = v
